@@ -91,13 +91,16 @@ def modelProg (E : Env String) (S : Subst) (is : List Instruction) : Sexp :=
     | .outOfFuel => .list [.atom "out-of-fuel"]
   .list [.atom "out", r, m]
 
-def modelExpand (E : Env String) (is : List Instruction) (i : Instruction) (prev : List Instruction) : Sexp :=
-  let p := Prog.fromInstructions is
-  match expandInner E p.cals FUEL prev i with
-  | .ok none => .list [.atom "ok", .list [.atom "none"]]
-  | .ok (some out) => .list [.atom "ok", .list [.atom "some", encodeInstructionList out]]
-  | .recursiveCalibration j => .list [.atom "recursive", encodeInstruction j]
+def encExpand : Outcome (Option (List Instruction)) → Sexp
+  | .ok none => .list [.atom "ok", .list [.atom "none"], .atom "same"]
+  | .ok (some out) => .list [.atom "ok", .list [.atom "some", encodeInstructionList out], .atom "same"]
+  | .recursiveCalibration j => .list [.atom "recursive", encodeInstruction j, .atom "same"]
   | .outOfFuel => .list [.atom "out-of-fuel"]
+
+def modelExpand (E : Env String) (S : Subst) (is : List Instruction) (i : Instruction)
+    (prev : List Instruction) : Sexp :=
+  let p := Prog.fromInstructions is
+  encExpand (expandInnerWith E S p.cals FUEL (prev.map E.key) i)
 
 /-! ### tags -/
 
